@@ -75,14 +75,21 @@ structure W where
   sent : List (Ev × Bool) := []     -- every call of `send`, with whether it returned normally
   failAt : Option Nat
   fault : Fault := .os none
+  faultIcc : Bool := false          -- the server's exception says 'invalid close code'
+  refused : List Int := []          -- close codes the server's policy refuses
   buffered : Bool := false
   pumpStopped : Bool := false
   inbox : List InEv
 deriving Repr
 
+/-- the server refuses this event on account of its close-code policy -/
+def W.refuses (w : W) : Ev → Bool
+  | .close c _ => w.refused.contains c
+  | _ => false
+
 /-- the server's `send` -/
 def W.asgiSend (w : W) (e : Ev) : W × Bool :=
-  let fails := w.failAt == some w.sent.length
+  let fails := w.failAt == some w.sent.length || w.refuses e
   ({ w with sent := w.sent ++ [(e, !fails)] }, !fails)
 
 def W.isClosed (w : W) (disc : Option Int) : Bool := w.st == .closed || disc.isSome
@@ -99,6 +106,7 @@ def W.send_ (w : W) (disc : Option Int) (e : Ev) : W × Option Exc :=
     | .os cause => ({ w with st := .closed, closeCode := some (wsdCode cause) }, some (wsd cause))
     | .ok1000 => ({ w with st := .closed, closeCode := some 1000 }, some (wsd (some 1000)))
     | .subproto => ({ w with st := .closed }, some .valueOther)
+    | .value => (w, some (Fault.raw .value w.faultIcc))
     | .other => (w, some .pyErr)
 
 def W.requireAccepted (w : W) : Option Exc :=
@@ -136,7 +144,7 @@ where
       (if w.st == .closed then w else { w with st := .closed, closeCode := disc }, none)
     else
     let (w, ok) := w.asgiSend (.close code ((reason || w.reasonCodes.contains code) && w.supReason))
-    if ok then ({ w with st := .closed, closeCode := some code }, none) else (w, some w.fault.raw)
+    if ok then ({ w with st := .closed, closeCode := some code }, none) else (w, some (w.fault.raw w.faultIcc))
 
 /-- `send_text(payload)`: `_require_accepted()`, then `_send({'type': 'websocket.send', 'text': payload})` -/
 def W.sendText (w : W) (disc : Option Int) (p : Text) : W × Option Exc :=
@@ -253,12 +261,15 @@ def runScript {D : Type} (h : Handlers D) (w : W) : List (Step D) → List (Out 
     | (w, .ok v) => runScript h w rest (log ++ [.ok v])
     | (w, .error e) => if catches.catches e then runScript h w rest (log ++ [.error e]) else (w, log ++ [.error e], some e)
 
+/-- `'invalid close code' in str(ex).lower()` (see `Ws.closeSaysInvalidCode`) -/
+def closeSaysInvalidCode (w w1 : W) (e : Exc) : Bool :=
+  e == .invalidCloseCode || (w1.sent.length != w.sent.length && w.faultIcc)
+
 /-- `_ws_cleanup_on_error` -/
 def cleanup (w : W) (fd : Option Int) : W × Option Exc :=
   match w.close fd (.int w.errCloseCode) false with
-  | (w, none) => (w, none)
-  | (w, some .invalidCloseCode) => w.close fd (.int 3011) false
-  | (w, some e) => (w, some e)
+  | (w1, none) => (w1, none)
+  | (w1, some e) => if closeSaysInvalidCode w w1 e then w1.close fd (.int 3011) false else (w1, some e)
 
 structure Cfg (D : Type) where
   custom : Option (List (Step D)) := none
@@ -336,7 +347,7 @@ def projIn {D : Type} (h : Handlers D) : InEv → Ws.InEv
 def proj {D : Type} (h : Handlers D) (binOk : Bool) (w : W) : Ws.W :=
   { st := w.st, closeCode := w.closeCode, supHeaders := w.supHeaders, supReason := w.supReason,
     reasonCodes := w.reasonCodes, errCloseCode := w.errCloseCode, binMediaOk := binOk,
-    sent := w.sent.map (fun x => (projEv x.1, x.2)), failAt := w.failAt, fault := w.fault,
+    sent := w.sent.map (fun x => (projEv x.1, x.2)), failAt := w.failAt, fault := w.fault, faultIcc := w.faultIcc, refused := w.refused,
     buffered := w.buffered, pumpStopped := w.pumpStopped, inbox := w.inbox.map (projIn h) }
 
 def projOp {D : Type} : Op D → Ws.Op
